@@ -3,7 +3,7 @@ From Coq Require Import String.
    case = (hub <kind> <n receivers> <n deliverers>)   obs = (<event> ...)
    The model output is the log itself when the hub transition system accepts it,
    (rejected <index>) otherwise; the verdict is computed from the log alone. *)
-From P2PV Require Import Lib.Base Model.Hub Run.RunFrag Run.RunQueue.
+From P2PV Require Import Lib.Base Model.Hub Run.RunFrag Run.RunQueue Run.RunQueueBuf.
 Open Scope N_scope.
 
 Definition nat_of_sx (x : sx) : nat := match x with SN n => N.to_nat n | _ => 0%nat end.
@@ -50,6 +50,7 @@ Fixpoint p_hub (seen : list sx) (rest : list sx) : sx :=
       let v :=
         if tag_is "stuck-r" e then bad "receive-still-blocked-after-close-or-cancel"
         else if tag_is "stuck-d" e then bad "deliver-still-blocked-after-close-or-cancel"
+        else if tag_is "stuck-close" e then bad "close-did-not-return"
         else if tag_is "nilret" e then bad "receive-returned-success-without-a-message"
         else if tag_is "panic" e then bad "panic"
         else if tag_is "leak" e then bad "goroutines-left-running-after-close"
@@ -151,12 +152,17 @@ Definition run_C04 (case obs : sx) : sx :=
 (* ---- C14: race-detector children and buffer-ownership scenarios ---- *)
 Definition run_C14 (case obs : sx) : sx :=
   match case, obs with
+  | SL [t; _; _; _], _ => if is_sym "qbuf" t then run_qbuf case obs else bad_case
   | SL (t :: _), SL [st; SN n] =>
       if is_sym "race" t then
         SL [SL [sym "clean"; SN 0];
             if is_sym "clean" st then ok else if is_sym "race" st then bad "data-race-reported" else bad "race-child-failed"]
       else if is_sym "own" t then
         SL [SL [sym "changed"; SN 0]; if n =? 0 then ok else bad "message-changed-while-its-callback-ran"]
+      else if is_sym "late" t then
+        SL [SL [sym "error"; SN 0];
+            if negb (is_sym "error" st) then bad "ask-with-an-ended-context-reported-success"
+            else if n =? 0 then ok else bad "response-buffer-written-after-ask-returned-an-error"]
       else bad_case
   | SL (t :: _), _ => if is_sym "race" t then SL [SL [sym "clean"; SN 0]; bad "race-build-missing"] else bad_case
   | _, _ => bad_case
